@@ -67,7 +67,7 @@ type c20Host struct {
 	cli *c20Client
 }
 
-func c20NewHost(w *cworld) *c20Host {
+func c20NewHost(w *cworld, workers int) *c20Host {
 	cli := &c20Client{objs: map[string]*v1alpha1.DecoratorController{}, failGet: map[string]bool{}}
 	mc := &Metacontroller{
 		k8sClient:            cli,
@@ -76,7 +76,7 @@ func c20NewHost(w *cworld) *c20Host {
 		dynInformers:         dynamicinformer.NewSharedInformerFactory(w.dynClient, time.Hour),
 		eventRecorder:        vh.NoopRecorder{},
 		decoratorControllers: map[string]*decoratorController{},
-		numWorkers:           1,
+		numWorkers:           workers,
 		logger:               logr.Discard(),
 	}
 	return &c20Host{mc: mc, cli: cli}
